@@ -326,3 +326,25 @@ for _pid, _extra in [("C01", []), ("C03", [dict(mode="wire", n=(1500, 20000), ju
          rule=RULE_SESSION + ((" || " + RULE_WIRE) if _extra else ""),
          assumptions=["Go channel / select / once / mutex semantics and the memory model at synchronisation granularity are modelled",
                       "testing/synctest quiescence detection; the instrumenter only adds yield points and swaps sync primitives for equivalent channel-based ones"])
+
+RULE_SAT = ("operation sequences generated from one PRNG are executed on the implementation and on the model's executable "
+            "definitions through the line protocol and compared line by line; distinct = distinct operation lines on which "
+            "both agree")
+
+prop("C16", lean=["FmpRpc.Tie.C16", "FmpRpc.Props.C16"],
+     runs=[dict(mode="timer", n=(1500, 20000), judge="eq")],
+     rule=RULE_SAT + " — timer: sequences over StartConstant / StartRandom / FireNow / Wait / sleep under virtual time "
+          "(testing/synctest): the instant every Wait returns is compared with the model",
+     assumptions=["real timers are a discrete clock (testing/synctest virtual time)"])
+prop("C18", lean=["FmpRpc.Tie.C18", "FmpRpc.Props.C18"],
+     runs=[dict(mode="remote", n=(1500, 20000), judge="eq"), dict(mode="uri", n=(4000, 40000), judge="eq")],
+     rule=RULE_SAT + " — remotes: group shapes up to 3x3 with duplicates, blanks, mixed case; sequences over GetAddress / Peek / "
+          "Reset with the shuffle reproduced from the seed; String() re-parsed. URIs: grammar-based (schemes x hosts incl. IPv6 "
+          "literals and zones x ports) plus byte mutations; url.Parse's own result is passed to the model (contract of net/url)",
+     assumptions=["net/url.Parse and strings.ToLower/TrimSpace beyond ASCII are contracts validated by the run, not modelled"])
+prop("C19", lean=["FmpRpc.Tie.C19", "FmpRpc.Props.C19"],
+     runs=[dict(mode="tags", n=(2000, 20000), judge="eq"), dict(mode="wire", n=(1000, 10000), judge="eq"), dict(SESSION)],
+     rule=RULE_SAT + " — tags: random trees of contexts derived by AddRPCTagsToContext with external mutation of every map the "
+          "user holds (passed in or read out) after every step; tags of every context and every user map compared at the end "
+          "|| " + RULE_WIRE + " || " + RULE_SESSION,
+     assumptions=["context.WithValue chains are immutable (contract of the context package)"])
